@@ -1,6 +1,6 @@
 """Property evaluators over path results of generated parsers, and the per-grammar job that explores (or reuses a cached
 exploration of byte-identical code), evaluates, and cross-validates natively."""
-import os, sys, time, json, pickle, hashlib, glob, random, traceback
+import random, os, sys, time, json, pickle, hashlib, glob, random, traceback
 import z3
 from . import harness, run, gram
 from .run import deser, Solver
@@ -765,7 +765,22 @@ def c15_job(args):
     try:
         h, err = harness.make_harness(g.text())
         if h is None:
-            out['reason'] = err[0] + ': ' + (err[1] or '').strip().split('\n')[0][:200]; return out
+            out['reason'] = err[0] + ': ' + (err[1] or '').strip().split('\n')[0][:200]
+            if err[0] == 'rejected':
+                # a grammar that is rejected in this declaration order must be rejected in every order
+                nd = len(g.decls()); rnd = random.Random(opts.get('seed', 0) * 31 + len(g.text()))
+                perms = [list(range(nd))[::-1]]
+                for _ in range(4):
+                    p = list(range(nd)); rnd.shuffle(p)
+                    if p not in perms: perms.append(p)
+                for perm in perms:
+                    out['permutations'] += 1
+                    r = harness.run_llw(g.text(perm))
+                    if r['rc'] == 0 and r['generated'] is not None:
+                        v = Violation('C15', 'order-dependent-acceptance', g, type('R', (), dict(entry='parse', n=0, witness=[], script=''))(),
+                                      f'the grammar is rejected ({out["reason"][:120]}) but accepted without error when its declarations are ordered {perm}')
+                        v.confirmed = True; v.gtext = g.text(perm); out['violations'].append(v.asdict()); break
+            return out
         if not gram.productive_rules(g) >= set(g.rules_dict()):
             out['reason'] = 'excluded: unproductive rule'; return out
         nd = len(g.decls())
